@@ -331,6 +331,24 @@ let run (cmd : string) (a : v) : v =
            vmat rows cols (neox_precondition fops par (nat_of_int mm) (nat_of_int m) (nat_of_int n) (hb <> 0)
                              (mat_of qg) (clamp fops (vec_of dg)) (mat_of qa) (clamp fops (vec_of da)) (getf lam) wg bg (nat_of_int primary) (nat_of_int j)))
          (range mm))
+  | "neox_ckpt", L [I w; L stage_layers; L held; L fws; I compute] ->
+      (* stage_layers: per rank [[name, inv]...]; held: per rank [[name, token]...]; fws: per rank [[name, factor_worker]...]
+         returns: gathered dict as sorted assoc list; per rank after load into empty ranks: [[name, token]...]; per rank recompute flags *)
+      let sl_a = Array.of_list (List.map (fun ls -> List.map (function L [I n; I i] -> { l_name = nat_of_int n; l_inv = nat_of_int i } | _ -> failwith "nlayer") (getl ls)) stage_layers) in
+      let sl r = let r = int_of_nat r in if r < Array.length sl_a then sl_a.(r) else [] in
+      let assoc_a v = Array.of_list (List.map (fun ls -> List.map (function L [I n; I t] -> (n, t) | _ -> failwith "assoc") (getl ls)) v) in
+      let held_a = assoc_a held and fw_a = assoc_a fws in
+      let heldf r n = let r = int_of_nat r in if r < Array.length held_a then (match List.assoc_opt (int_of_nat n) held_a.(r) with Some t -> Some (nat_of_int t) | None -> None) else None in
+      let fwf r n = let ri = int_of_nat r in if ri < Array.length fw_a then (match List.assoc_opt (int_of_nat n) fw_a.(ri) with Some t -> nat_of_int t | None -> nat_of_int 99999) else nat_of_int 99999 in
+      let g = gathered (nat_of_int w) sl heldf in
+      let names = List.sort_uniq compare (List.concat (List.map (fun ls -> List.map (fun l -> int_of_nat l.l_name) ls) (Array.to_list sl_a))) in
+      let saved_view = List.filter_map (fun n -> match dict_get g (nat_of_int n) with Some t -> Some (L [I n; vnat t]) | None -> None) names in
+      let after = load fwf sl g (fun _ _ -> None) in
+      L [ L saved_view;
+          L (List.map (fun r -> L (List.filter_map (fun n -> match after (nat_of_int r) (nat_of_int n) with Some t -> Some (L [I n; vnat t]) | None -> None) names)) (range w));
+          L (List.map (fun r -> L (List.filter_map (fun n -> if recomputes fwf sl g (compute <> 0) (nat_of_int r) (nat_of_int n) then Some (I n) else None) names)) (range w)) ]
+  | "neox_ckpt_comm", L [I dir] ->
+      L [ L (List.map vnat (save_comm (dir <> 0))); L (List.map vnat (load_comm (dir <> 0))) ]
   | _ -> failwith ("unknown command or bad argument: " ^ cmd)
 
 let () =
